@@ -56,52 +56,68 @@ func (e *execPkg) driver() string {
 			k++
 			srv := fmt.Sprintf("verifSrv%d", k)
 			w("type %s struct{}\n\n", srv)
+			mi := 0
 			for _, m := range s.Methods {
 				in, out := e.qual(m.In, m.InPath), e.qual(m.Out, m.OutPath)
 				st := "DRPC" + streamBase(s, m) + "Stream"
+				// every answer carries the identity of the (service, method) that produced it
+				mi++
+				tag := answerTag(k, mi)
 				switch {
 				case !m.CS && !m.SS:
-					w("func (%s) %s(ctx context.Context, in *%s) (*%s, error) { return &%s{V: in.V + 1}, nil }\n\n", srv, m.Go, in, out, out)
+					w("func (%s) %s(ctx context.Context, in *%s) (*%s, error) { return &%s{V: in.V + 1 + %d}, nil }\n\n", srv, m.Go, in, out, out, tag)
 				case !m.CS && m.SS:
-					w("func (%s) %s(in *%s, st %s) error {\n\tfor i := int64(0); i < 3; i++ {\n\t\tif err := st.Send(&%s{V: in.V + i}); err != nil {\n\t\t\treturn err\n\t\t}\n\t}\n\treturn nil\n}\n\n", srv, m.Go, in, st, out)
+					w("func (%s) %s(in *%s, st %s) error {\n\tfor i := int64(0); i < 3; i++ {\n\t\tif err := st.Send(&%s{V: in.V + i + %d}); err != nil {\n\t\t\treturn err\n\t\t}\n\t}\n\treturn nil\n}\n\n", srv, m.Go, in, st, out, tag)
 				case m.CS && !m.SS:
-					w("func (%s) %s(st %s) error {\n\tvar sum int64\n\tfor {\n\t\tin, err := st.Recv()\n\t\tif err == io.EOF {\n\t\t\tbreak\n\t\t}\n\t\tif err != nil {\n\t\t\treturn err\n\t\t}\n\t\tsum += in.V\n\t}\n\treturn st.SendAndClose(&%s{V: sum})\n}\n\n", srv, m.Go, st, out)
+					w("func (%s) %s(st %s) error {\n\tvar sum int64\n\tfor {\n\t\tin, err := st.Recv()\n\t\tif err == io.EOF {\n\t\t\tbreak\n\t\t}\n\t\tif err != nil {\n\t\t\treturn err\n\t\t}\n\t\tsum += in.V\n\t}\n\treturn st.SendAndClose(&%s{V: sum + %d})\n}\n\n", srv, m.Go, st, out, tag)
 				default:
-					w("func (%s) %s(st %s) error {\n\tfor {\n\t\tin, err := st.Recv()\n\t\tif err == io.EOF {\n\t\t\treturn nil\n\t\t}\n\t\tif err != nil {\n\t\t\treturn err\n\t\t}\n\t\tif err := st.Send(&%s{V: in.V * 2}); err != nil {\n\t\t\treturn err\n\t\t}\n\t}\n}\n\n", srv, m.Go, st, out)
+					w("func (%s) %s(st %s) error {\n\tfor {\n\t\tin, err := st.Recv()\n\t\tif err == io.EOF {\n\t\t\treturn nil\n\t\t}\n\t\tif err != nil {\n\t\t\treturn err\n\t\t}\n\t\tif err := st.Send(&%s{V: in.V*2 + %d}); err != nil {\n\t\t\treturn err\n\t\t}\n\t}\n}\n\n", srv, m.Go, st, out, tag)
 				}
 			}
 		}
 	}
 	w("// VerifRoundTrip returns one line per failed expectation.\nfunc VerifRoundTrip() (fails []string) {\n")
 	w("\tfail := func(format string, a ...interface{}) { fails = append(fails, fmt.Sprintf(format, a...)) }\n\t_ = fail\n")
+	// ONE mux for the whole package, as a server offering all its services has: every service is
+	// registered on it before the first call, so a client must reach its own service's implementation
+	w("\tmux := drpcmux.New()\n")
+	k = 0
+	for _, f := range e.files {
+		for _, s := range f.Services {
+			k++
+			w("\tif err := DRPCRegister%s(mux, verifSrv%d{}); err != nil {\n\t\tfail(\"register %s: %%v\", err)\n\t\treturn fails\n\t}\n", s.Go, k, s.Go)
+		}
+	}
 	k = 0
 	for _, f := range e.files {
 		for _, s := range f.Services {
 			k++
 			w("\tfunc() {\n")
-			w("\t\tmux := drpcmux.New()\n\t\tif err := DRPCRegister%s(mux, verifSrv%d{}); err != nil {\n\t\t\tfail(\"register %s: %%v\", err)\n\t\t\treturn\n\t\t}\n", s.Go, k, s.Go)
 			w("\t\tc1, c2 := net.Pipe()\n\t\tctx, cancel := context.WithTimeout(context.Background(), 20*time.Second)\n\t\tdefer cancel()\n")
 			w("\t\tdone := make(chan struct{})\n\t\tgo func() { defer close(done); _ = drpcserver.New(mux).ServeOne(ctx, c1) }()\n")
 			w("\t\tconn := drpcconn.New(c2)\n\t\tdefer func() { _ = conn.Close(); <-done }()\n")
 			w("\t\tcli := NewDRPC%sClient(conn)\n\t\t_ = cli\n", s.Go)
+			mi := 0
 			for _, m := range s.Methods {
 				in := e.qual(m.In, m.InPath)
 				name := s.Go + "." + m.Go
+				mi++
+				tag := answerTag(k, mi)
 				switch {
 				case !m.CS && !m.SS:
-					w("\t\tif out, err := cli.%s(ctx, &%s{V: 41}); err != nil || out.V != 42 {\n\t\t\tfail(\"unary %s: %%v %%v\", out, err)\n\t\t}\n", m.Go, in, name)
+					w("\t\tif out, err := cli.%s(ctx, &%s{V: 41}); err != nil || out.V != 42+%d {\n\t\t\tfail(\"unary %s (answer expected: %d): %%v %%v\", out, err)\n\t\t}\n", m.Go, in, tag, name, 42+tag)
 				case !m.CS && m.SS:
 					w("\t\tif st, err := cli.%s(ctx, &%s{V: 10}); err != nil {\n\t\t\tfail(\"server-stream %s: %%v\", err)\n\t\t} else {\n", m.Go, in, name)
-					w("\t\t\tfor i := int64(0); i < 3; i++ {\n\t\t\t\tif out, err := st.Recv(); err != nil || out.V != 10+i {\n\t\t\t\t\tfail(\"server-stream %s recv %%d: %%v %%v\", i, out, err)\n\t\t\t\t}\n\t\t\t}\n", name)
+					w("\t\t\tfor i := int64(0); i < 3; i++ {\n\t\t\t\tif out, err := st.Recv(); err != nil || out.V != 10+i+%d {\n\t\t\t\t\tfail(\"server-stream %s recv %%d (answer expected: %%d): %%v %%v\", i, 10+i+%d, out, err)\n\t\t\t\t}\n\t\t\t}\n", tag, name, tag)
 					w("\t\t\tif _, err := st.Recv(); err != io.EOF {\n\t\t\t\tfail(\"server-stream %s end: %%v\", err)\n\t\t\t}\n\t\t\t_ = st.Close()\n\t\t}\n", name)
 				case m.CS && !m.SS:
 					w("\t\tif st, err := cli.%s(ctx); err != nil {\n\t\t\tfail(\"client-stream %s: %%v\", err)\n\t\t} else {\n", m.Go, name)
 					w("\t\t\tfor i := int64(1); i <= 3; i++ {\n\t\t\t\tif err := st.Send(&%s{V: i}); err != nil {\n\t\t\t\t\tfail(\"client-stream %s send: %%v\", err)\n\t\t\t\t}\n\t\t\t}\n", in, name)
-					w("\t\t\tif out, err := st.CloseAndRecv(); err != nil || out.V != 6 {\n\t\t\t\tfail(\"client-stream %s result: %%v %%v\", out, err)\n\t\t\t}\n\t\t\t_ = st.Close()\n\t\t}\n", name)
+					w("\t\t\tif out, err := st.CloseAndRecv(); err != nil || out.V != 6+%d {\n\t\t\t\tfail(\"client-stream %s result (answer expected: %d): %%v %%v\", out, err)\n\t\t\t}\n\t\t\t_ = st.Close()\n\t\t}\n", tag, name, 6+tag)
 				default:
 					w("\t\tif st, err := cli.%s(ctx); err != nil {\n\t\t\tfail(\"bidi %s: %%v\", err)\n\t\t} else {\n", m.Go, name)
 					w("\t\t\tfor i := int64(1); i <= 3; i++ {\n\t\t\t\tif err := st.Send(&%s{V: i}); err != nil {\n\t\t\t\t\tfail(\"bidi %s send: %%v\", err)\n\t\t\t\t}\n", in, name)
-					w("\t\t\t\tif out, err := st.Recv(); err != nil || out.V != 2*i {\n\t\t\t\t\tfail(\"bidi %s recv: %%v %%v\", out, err)\n\t\t\t\t}\n\t\t\t}\n", name)
+					w("\t\t\t\tif out, err := st.Recv(); err != nil || out.V != 2*i+%d {\n\t\t\t\t\tfail(\"bidi %s recv (answer expected: %%d): %%v %%v\", 2*i+%d, out, err)\n\t\t\t\t}\n\t\t\t}\n", tag, name, tag)
 					w("\t\t\tif err := st.CloseSend(); err != nil {\n\t\t\t\tfail(\"bidi %s closesend: %%v\", err)\n\t\t\t}\n", name)
 					w("\t\t\tif _, err := st.Recv(); err != io.EOF {\n\t\t\t\tfail(\"bidi %s end: %%v\", err)\n\t\t\t}\n\t\t\t_ = st.Close()\n\t\t}\n", name)
 				}
@@ -112,6 +128,10 @@ func (e *execPkg) driver() string {
 	w("\treturn fails\n}\n")
 	return b.String()
 }
+
+// answerTag: what the implementation of method mi (1-based) of service k (1-based) adds to each answer, so
+// the client can tell which implementation answered
+func answerTag(k, mi int) int { return 1000*k + 100*mi }
 
 func relDir(importPath string) string { return strings.TrimPrefix(importPath, "scratch/") }
 
@@ -222,6 +242,7 @@ func (r *runner) runExec() {
 		default:
 			o.OracleOK("round-trip")
 			o.Stat("executed:" + e.d.libKind())
+			o.Stat("executed-class:" + e.d.Tag)
 			for _, f := range e.files {
 				for _, s := range f.Services {
 					for _, m := range s.Methods {
